@@ -174,7 +174,10 @@ def run(ctx):
         it, rt, st = type_variants(i)
         ss = g.enumerate_stacks(n, m, depth, itype=it, rtype=rt, stype=st, variant=i)
         if not thorough:
-            ss = g.adjacency_cover(ss)
+            # pairwise adjacency cover; for two (N,M) additionally EVERY stack to depth 3 - a layer can depend on a layer two
+            # below it (non-adjacent triples), which a pairwise cover need not contain
+            full3 = [s for s in ss if s.depth() <= 3] if i in (0, 1) else []
+            ss = g.adjacency_cover(ss) + full3
         for s in ss:
             if not g.view_fits(s):
                 oversize += 1
@@ -291,7 +294,7 @@ def run(ctx):
                 "result type, trivially copyable view, copy/move construction and assignment, dump, stream constructor, get_configuration, and construction from every compatible stack (storage order / interpolator substituted beneath affine layers); "
                 "stacks whose view exceeds field_view's 256-byte limit are excluded by a size model that every script re-checks with a static_assert; "
                 "ill-kinded catalogue: %d entries, each must be rejected with the layer's own static_assert text while its well-kinded twin compiles; CUDA device array under a header shim of the runtime. "
-                "quick = pairwise layer-adjacency cover at depth <= 5 for (N,M) in %s; thorough = every stack to depth 4 for all 16 (N,M) and depth 5 for five (N,M)" % (len(ILL), NM_QUICK),
+                "quick = pairwise layer-adjacency cover at depth <= 5 for (N,M) in %s plus every stack to depth 3 for the first two of them; thorough = every stack to depth 4 for all 16 (N,M) and depth 5 for five (N,M)" % (len(ILL), NM_QUICK),
         "plan": [[list(nm), d] for nm, d in plan], "stacks_compiled_ok": compiled_ok, "stacks_failed": nbad, "stacks_skipped_deadline": skipped,
         "oversize_views_excluded": oversize, "translation_units": len(tus), "ill_kinded_entries": ill_done,
     })
